@@ -71,7 +71,7 @@ def eval_dyad_amend(a, b, backend):
     if is_list(b[0]) or r.ndim > 1 or (r.dtype != object and isinstance(b[0], str)): # TOOD: use bknp.put if we can
         r = r.tolist()
         for i in b[1:]:
-            r[i] = b[0]
+            r[int(i)] = b[0]
         r = backend.kg_asarray(r)
     else:
         if r.dtype.kind in 'iu' and isinstance(b[0], (float, numpy.floating)):
